@@ -76,10 +76,13 @@ Proof.
 Qed.
 
 Lemma uniq_event_value v : uniq (event_value v).
-Proof. destruct v; simpl; auto. unfold float_json. destruct (f64_finite bits); simpl; auto. Qed.
+Proof.
+  destruct v; unfold event_value, float_json;
+    repeat match goal with |- context [if ?c then _ else _] => destruct c end; simpl; auto.
+Qed.
 Lemma uniq_span_value v : uniq (span_value v).
 Proof.
-  destruct v; try apply uniq_event_value. unfold span_value. apply uniq_arr.
+  destruct v; try (simpl; exact I); try apply uniq_event_value. unfold span_value. apply uniq_arr.
   induction b; simpl; constructor; simpl; auto.
 Qed.
 
